@@ -326,7 +326,31 @@ EMPTY_STATE = {'tab': {'a1': -1, 'a2': -1}, 'stored': {'a1': -1, 'a2': -1},
                'g1tab': {'a1': -1, 'a2': -1}, 'nver': 0, 'evo': []}
 
 
-def execute_history(hist, histories, oracles, keep_results=False):
+def rows_lost(before, after):
+    """Values that changed or vanished between two database projections: for every
+    table in both, every row (by primary key) and column in both."""
+    out = []
+    if not before or not after:
+        return out
+    for t, tb in before['tables'].items():
+        ta = after['tables'].get(t)
+        if ta is None:
+            continue
+        rb = {r.get('id'): r for r in (tb.get('rows') or [])}
+        ra = {r.get('id'): r for r in (ta.get('rows') or [])}
+        for pk, row in rb.items():
+            if pk not in ra:
+                out.append({'table': t, 'pk': pk, 'what': 'row lost'})
+                continue
+            for c, v in row.items():
+                if c in ra[pk] and ra[pk][c] != v:
+                    out.append({'table': t, 'pk': pk, 'column': c, 'before': v, 'after': ra[pk][c]})
+        if set(ra) - set(rb) and rb:
+            out.append({'table': t, 'what': 'rows appeared', 'pks': sorted(set(ra) - set(rb))[:5]})
+    return out
+
+
+def execute_history(hist, histories, oracles, keep_results=False, with_rows=False):
     """Replay one TLC history on a real project.  Returns a list of run
     records: dict(request, result, pre, post, code, trace, fault)."""
     project = Project([h.app for h in histories.values()], tag='hist')
@@ -335,6 +359,7 @@ def execute_history(hist, histories, oracles, keep_results=False):
     try:
         project.set_installed([])
         state = copy.deepcopy(EMPTY_STATE)
+        rows_before = None
         i = 0
         ops = list(hist)
         while i < len(ops):
@@ -356,6 +381,10 @@ def execute_history(hist, histories, oracles, keep_results=False):
                 drv = op['drv']
                 if drv == 'api':
                     request = {'action': 'evolve_api'}
+                elif with_rows and len(out) % 2 == 1:
+                    # C04: every other command run goes through the replaced `migrate`
+                    request = {'action': 'command', 'name': 'migrate',
+                               'options': {'interactive': False, 'verbosity': 0}}
                 else:
                     request = {'action': 'command', 'name': 'evolve',
                                'options': {'execute': True, 'interactive': False,
@@ -415,6 +444,16 @@ def execute_history(hist, histories, oracles, keep_results=False):
                     rec['result'] = res
                 rec['events'] = res['events']
                 rec['db'] = res['post']['default']['db']
+                if with_rows:
+                    # rows present before this run must have survived it; then give every
+                    # still-empty table its rows for the runs to come
+                    rec['rows_lost'] = rows_lost(rows_before, rec['db']) if rows_before else []
+                    if res['outcome'] == 'ok':
+                        project.run({'action': 'insert_rows'})
+                        snap = project.run({'action': 'snapshot'})
+                        rows_before = snap['post']['default']['db']
+                    else:
+                        rows_before = rec['db']
                 out.append(rec)
                 state = post
                 continue
